@@ -277,6 +277,10 @@ pub enum ClientOp {
     Call { h: u16, work: Vec<Step> },
     /// start a call, poll it `polls` times, then drop the future (client-side timeout / select!)
     CallDrop { h: u16, work: Vec<Step>, polls: u8 },
+    /// a send whose future is polled `extra` more times than it is woken (spurious polls are allowed by the Future contract)
+    SendRepoll { h: u16, work: Vec<Step>, extra: u8 },
+    /// create a join future, poll it once and keep it alive (a stalled `select!` arm) until the client ends
+    JoinStash { h: u16 },
     Ping { h: u16 },
     Stop { h: u16 },
     Halt { h: u16 },
